@@ -180,9 +180,17 @@ def show_items(items):
 
 
 # ---- side condition of C18_same_program_partial (Lean: C18.safeLine / C18.SafeFile) -------------------
-def unsafe_reasons(L, lines):
+def rstrip(s):
+    j = len(s)
+    while j > 0 and is_ws(s[j - 1]):
+        j -= 1
+    return s[:j]
+
+
+def unsafe_reasons(L, lines, fixed=False, line_type=None):
     """For every line longer than L: the defect classes it falls in (threading the spec state).
-    Returns a list of (line index, reason)."""
+    Returns a list of (line index, reason).  fixed=True: the side condition SafeFileF of the repaired code
+    (no directive-compound-eq class; line_type = the live _get_line_type for `noStrip`)."""
     st = St()
     out = []
     for i, l in enumerate(lines):
@@ -192,7 +200,7 @@ def unsafe_reasons(L, lines):
                 rest = lstrip(l)[5:]
                 if "!" in rest:
                     out.append((i, "inline-comment"))
-                if any(rest[j] == "=" and rest[j + 1] in "=>" for j in range(len(rest) - 1)):
+                if not fixed and any(l[j] == "=" and l[j + 1] in "=>" for j in range(len(l) - 1)):
                     out.append((i, "directive-compound-eq"))
                 if is_ws(l[-1]):
                     out.append((i, "trailing-blank"))
@@ -207,5 +215,7 @@ def unsafe_reasons(L, lines):
                     out.append((i, "inline-comment"))
                 if is_ws(l[-1]):
                     out.append((i, "trailing-blank"))
+            if fixed and k in (0, 3) and line_type(l) != "comment" and rstrip(l).endswith("&") and is_ws(l[-1]):
+                out.append((i, "trailing-blank"))
         step(st, l)
     return out
